@@ -94,6 +94,22 @@ class FP(Feature):
         return np.array([[float(self.calls), self.peak if self.peak > -np.inf else 0.0]])
 
 
+class FL(Feature):
+    """A user feature whose attribute is created LAZILY, inside its event callback, not in __init__ (a common way to
+    write a running maximum): Observer.reset documents that such attributes are discarded."""
+
+    def __init__(self):
+        super().__init__(space=gymnasium.spaces.Box(-np.inf, np.inf, (1, 1), float), name="FL")
+
+    def process_EventNBBO(self, event):
+        if not hasattr(self, "peak"):
+            self.peak = float(event.bid_price)
+        self.peak = max(self.peak, float(event.bid_price))
+
+    def parse(self):
+        return np.array([[getattr(self, "peak", 0.0)]])
+
+
 def make_signal(which):
     """A CLASS FACTORY for user features: every call returns a new class of the same module and qualified name
     ('Signal') whose single event callback depends on the argument - what a configurable feature library, a notebook
@@ -219,6 +235,8 @@ def build(spec, share=None):
             kw["state"] = [FA(cs), FeaturePortfolioWeight(cs, -3, 3), FeatureSpread(cs)] + ([FP()] if rng.random() < 0.6 else [])
             # (a feature whose class comes out of a factory: same name in every environment, another callback)
             kw["state"].append(make_signal(["nbbo", "step", "newdate"][seed % 3])())
+            if seed % 2 == 0:
+                kw["state"].append(FL())
         else:
             kw["state"] = IState()
     if kind == "spot" and seed % 4 == 0 and not default_state:
